@@ -21,7 +21,8 @@ def Ty.supB : Ty → Bool
   | .lit vs => litHasEnum vs || vs.all Obj.isLeaf
   | .coll k t => t.supB && (!k.structTo.isSet || t.hashPrim)
   | .tupleHet ts => ts.all Ty.isPrimLeaf
-  | .map _ kt vt => kt.hashPrim && kt.supB && vt.supB
+  -- (mapping types with the target class `dict` only: `_structure_dict` always returns a plain `dict`)
+  | .map k kt vt => kt.hashPrim && kt.supB && vt.supB && k.target.isNone
   | .opt t => t.supB
   | .wrap k t => ((k == .final || k == .alias) && t.supB) || (k == .newtype && t.isPrimLeaf)
   | .td _ => false
@@ -152,7 +153,7 @@ theorem supB_supG (td : Bool) : ∀ (t : Ty), t.supB = true → t.supG td = true
   | .map _ kt vt, h => by
       simp only [Ty.supB, Bool.and_eq_true] at h
       simp only [Ty.supG, Bool.and_eq_true]
-      exact ⟨⟨h.1.1, supB_supG td kt h.1.2⟩, supB_supG td vt h.2⟩
+      exact ⟨⟨⟨h.1.1.1, supB_supG td kt h.1.1.2⟩, supB_supG td vt h.1.2⟩, by simp [h.2]⟩
   | .opt t, h => by
       simp only [Ty.supB] at h
       simp only [Ty.supG]
@@ -242,7 +243,8 @@ theorem un_eq_unAny (hg : cu.gen = false) :
       | _ => simp [conf] at hc
   | .map _ kt vt, x, _, _, hc => by
       cases x <;> simp [conf] at hc
-      rw [un, unAny]; simp [hg]
+      · rw [un, unAny]; simp [hg]
+      · rw [un, unAny]; simp [hg]
   | .opt t, x, _, _, _ => by
       cases x <;> simp [un, unAny, hg]
   | .wrap k t, x, hs, hk', hc => by
@@ -302,7 +304,8 @@ theorem unAny_ne_none (tup : Bool) (hwe : w.WFE) :
       | _ => simp [conf] at hc
   | .map _ kt vt, x, _, _, hc, _ => by
       cases x <;> simp [conf] at hc
-      rw [unAny]; simp
+      · rw [unAny]; simp
+      · rw [unAny]; split <;> simp
   | .opt t, x, hs, hu, hc, hx => by
       rw [conf_opt_some w hx] at hc
       exact unAny_ne_none tup hwe t x (by simpa [Ty.supB] using hs) (by simpa [Ty.unionsOK] using hu) hc hx
@@ -582,7 +585,8 @@ theorem roundtrip_any_aux (hg : cu.gen = false) (hstrat : cs.tupleStrat = cu.tup
             (by rw [primLeaf_refs hp]; intro c hc'; cases hc') (primLeaf_unionsOK w _ hp) hcy hvy)
       | map k kt vt =>
         simp only [Ty.supB, Bool.and_eq_true] at hs
-        obtain ⟨⟨hp, hsk⟩, hsv⟩ := hs
+        obtain ⟨⟨⟨hp, hsk⟩, hsv⟩, hkt⟩ := hs
+        have hkt' : k.target = Option.none := by simpa using hkt
         have hrk : ∀ c ∈ kt.refs, S c := fun c hc' => hr c (by simp [Ty.refs, hc'])
         have hrv : ∀ c ∈ vt.refs, S c := fun c hc' => hr c (by simp [Ty.refs, hc'])
         simp only [Ty.unionsOK, Bool.and_eq_true] at hu
@@ -590,7 +594,7 @@ theorem roundtrip_any_aux (hg : cu.gen = false) (hstrat : cs.tupleStrat = cu.tup
         cases x with
         | dict kvs =>
           simp only [conf, Bool.and_eq_true] at hc
-          obtain ⟨⟨hckv, hnd⟩, hh⟩ := hc
+          obtain ⟨⟨⟨hckv, hnd⟩, hh⟩, _⟩ := hc
           have hkv := (confKV_iff w kt vt kvs).mp hckv
           have hnd' : nodupPy (keysOf (unAnyKV w cu kvs)) = true := by
             rw [keysOf_unAnyKV]
@@ -605,7 +609,8 @@ theorem roundtrip_any_aux (hg : cu.gen = false) (hstrat : cs.tupleStrat = cu.tup
             have hvv := validKV_mem (p := (a, b)) (by simp only [Obj.valid, Bool.and_eq_true] at hv; exact hv.2) hp'
             exact ⟨IHo kt a (by simp; omega) hsk hk.1 hrk hu.1 (hkv.1 a (by simp only [keysOf, List.mem_map]; exact ⟨(a, b), hp', rfl⟩)) hvv.1,
                    IHo vt b (by simp; omega) hsv hk.2 hrv hu.2 (hkv.2 b (by simp only [List.mem_map]; exact ⟨(a, b), hp', rfl⟩)) hvv.2⟩)]
-          simp [hh, mkDict_of_nodup _ hnd]
+          simp [hh, mkDict_of_nodup _ hnd, mapRes_plain cs kvs hkt']
+        | mdict d kvs => simp [conf, hkt'] at hc
         | _ => simp [conf] at hc
       | opt t' =>
         have hsz : sizeOf t' ≤ m := by simp at ht; omega
